@@ -6,7 +6,7 @@ from ..tlc import run_tlc, MachineryError
 from .. import traces as T
 
 MODE = "fixed"        # "asbuilt" = rotation setters do not refresh the rotated tensors (before the repair, known_findings.json)
-CONSTS = ['  Stiff = {"C1", "C2"}', '  Rots = {"I", "R1", "R2"}', '  Eigs = {"e1", "e2"}', '  Stresses = {"s1"}',
+CONSTS = ['  Stiff = {"C1", "C2"}', '  Rots = {"I", "R1", "R2"}', '  Eigs = {"e1", "e2", "e3"}', '  Stresses = {"s1"}',
           '  Shapes = {"sphere", "cube", "ellipsoid", "constant"}']
 
 
